@@ -995,3 +995,5 @@ LEVEL_NOTE = ("binary64 subtraction and str() of numbers are inputs of the model
               "oracle-only.  Known finding: duplicated WRAP items grow by one per write(wrap=...).  Repaired finding "
               "(62bf842): STEP was written as 0 / empty when STOP printed like STRT although the index had a first increment; its input "
               "[1, 2, 1] is run first on every run.")
+
+RULE = RULE + ("; ALSO (fifth session): index edits far below any relative tolerance (shift / nudge by 2e-5 .. 3e-2, scale by 1.000001) before and between writes")
